@@ -71,7 +71,7 @@ NOT_APPLICABLE = {
  "C02": "needs execution of run-time generated Cranelift machine code and the C01 pipeline; no symbolic engine here executes generated code (DESIGN §4 C02)",
  "C08": "continuation capture/reinstatement are VmCore methods over a live frame stack; no unit-level state can be built without a running engine (DESIGN §4 C08)",
  "C09": "frame reuse is inlined in the 1400-line VmCore::vm dispatch loop whose static reach is the whole interpreter; the quantity (space over 10^7 iterations) is not a bounded-unrolling question (DESIGN §4 C09)",
- "C12": "measured: a 2-byte symbolic input through the real lexer does not leave CBMC's symbolic execution in 15 min / 5 GB; a smaller bound would be weaker than the existing lexer tests (DESIGN §4 C12)",
+ "C12": "measured: a 2-byte symbolic input through the real lexer does not leave CBMC's symbolic execution in 15 min / 5 GB; a smaller bound would be weaker than the existing lexer tests; only the number-literal kernel parse_real gets through (with the integer and float parsers stubbed) and is checked under C07 -- totality of the reader as a whole and the write/read round trip are not decided (DESIGN §4 C12)",
  "C13": "macro expansion is AST rewriting over interned identifiers; the observable (which binding an identifier resolves to) exists only after compiling and running the expansion (DESIGN §4 C13)",
  "C14": "module instantiation needs the C01 pipeline plus the file system and the engine's module table (DESIGN §4 C14)",
  "C18": "native stack use as a function of value depth up to 10^6 is exactly what a bounded unrolling cannot bound (DESIGN §4 C18)",
